@@ -92,6 +92,38 @@ type pfbVector struct {
 	Caps   []int   `json:"caps"`
 	Chunks []int   `json:"chunks"`
 	EOFwd  bool    `json:"eofwd"`
+	// family "big": the segments are described, not written out (header bytes from the
+	// specification; payload byte i, counted from 1, is (a*i + c) % 256)
+	Parts []struct {
+		Hdr []int `json:"hdr"`
+		Ty  int   `json:"ty"`
+		N   int   `json:"n"`
+		A   int   `json:"a"`
+		C   int   `json:"c"`
+	} `json:"parts"`
+}
+
+// expandBig writes out a described stream and what it decodes to.
+func (v *pfbVector) expandBig() (inp, D []byte) {
+	const hexd = "0123456789abcdef"
+	for _, pt := range v.Parts {
+		inp = append(inp, pfbBytes(pt.Hdr)...)
+		at := len(inp)
+		for i := 1; i <= pt.N; i++ {
+			inp = append(inp, byte((pt.A*i+pt.C)%256))
+		}
+		if pt.Ty == 1 {
+			D = append(D, inp[at:]...)
+		} else {
+			for _, b := range inp[at:] {
+				D = append(D, hexd[b>>4], hexd[b&15])
+			}
+		}
+	}
+	if v.Tail == "marker" {
+		inp = append(inp, 0x80, 3)
+	}
+	return inp, D
 }
 
 // scriptReader is the underlying io.Reader of a vector: call i hands out at
@@ -200,7 +232,7 @@ func drivePFB(inp []byte, caps, chunks []int, eofwd bool, extra int) (res pfbRun
 		c := last
 		if i < len(caps) {
 			c = caps[i]
-			last = c
+			last = max(c, 1)
 		}
 		buf := make([]byte, c)
 		for j := range buf {
@@ -294,7 +326,7 @@ func judgePFBRead(D []byte, term string, pos int, o *pfbObs) (sig, what string) 
 			return "pfb read: unexpected error", "a well-formed stream gave an error"
 		}
 	}
-	if o.Err == "nil" && o.N == 0 {
+	if o.Err == "nil" && o.N == 0 && o.Cap >= 1 {
 		return "pfb read: no progress", "Read returned (0, nil)"
 	}
 	if term == "eof" {
@@ -542,7 +574,15 @@ func replayPFBOne(part *pfbPart, path string, line, num int, raw []byte, timer *
 		sum.ExpectError++
 	}
 	inp, D := pfbBytes(v.Inp), pfbBytes(v.D)
+	if v.Fam == "big" {
+		inp, D = v.expandBig()
+		traceIt = false // far beyond what TLC can read back
+	}
 	stim := func() string {
+		if v.Fam == "big" {
+			return fmt.Sprintf("segments (type, length) %v with payload byte i = (a*i+c)%%256, tail %s; buffer sizes %v then %d; underlying reader: chunks %v cyclic, EOF with last bytes=%v",
+				v.Desc, v.Tail, v.Caps, v.Caps[len(v.Caps)-1], v.Chunks, v.EOFwd)
+		}
 		return fmt.Sprintf("input bytes %s; buffer sizes %s; underlying reader: chunks %v cyclic, EOF with last bytes=%v",
 			clipInts(v.Inp, 48), clipInts(v.Caps, 16), v.Chunks, v.EOFwd)
 	}
@@ -552,7 +592,11 @@ func replayPFBOne(part *pfbPart, path string, line, num int, raw []byte, timer *
 	// when the vector's buffer sizes are used up without a terminal result (possible only where the contract
 	// does not demand that buffers are filled) reading goes on until the decoder says how the stream ends
 	extra := len(D) + 8
-	run := drivePFBGuarded(inp, v.Caps, v.Chunks, v.EOFwd, extra, 3*time.Second, timer)
+	limit := 3 * time.Second
+	if v.Fam == "big" {
+		limit = 20 * time.Second
+	}
+	run := drivePFBGuarded(inp, v.Caps, v.Chunks, v.EOFwd, extra, limit, timer)
 	if run.hang {
 		part.hangs++
 		hangsAll.Add(1)
@@ -567,7 +611,7 @@ func replayPFBOne(part *pfbPart, path string, line, num int, raw []byte, timer *
 	bad := sig != ""
 	if bad {
 		// a disagreement counts when the same stimulus alone gives it again
-		again := drivePFBGuarded(inp, v.Caps, v.Chunks, v.EOFwd, extra, 3*time.Second, timer)
+		again := drivePFBGuarded(inp, v.Caps, v.Chunks, v.EOFwd, extra, limit, timer)
 		if sig2, _, _ := judgePFBRun(D, v.Term, again.obs); again.hang || again.panic != "" || sig2 != sig {
 			sum.Unreproduced++
 		}
@@ -688,7 +732,7 @@ func tracePFB(args []string) error {
 		kinds[kind]++
 		// schedule of buffer sizes
 		var caps []int
-		mode := rng.Intn(5)
+		mode := rng.Intn(6)
 		total := 0
 		for total <= 2*len(inp)+2 && len(caps) < 20000 {
 			c := 1
@@ -703,6 +747,12 @@ func tracePFB(args []string) error {
 				c = 1 + 2*rng.Intn(8) // odd sizes
 			case 4:
 				c = []int{1, 2, 3, 7, 64, 512, 4096}[rng.Intn(7)]
+			case 5:
+				// odd and even sizes with an empty buffer now and then (never twice in a row)
+				c = rng.Intn(6)
+				if c == 0 && (len(caps) == 0 || caps[len(caps)-1] == 0) {
+					c = 3
+				}
 			}
 			caps = append(caps, c)
 			total += c
